@@ -118,6 +118,24 @@ def diff(obs, exp, free=()):
     return None
 
 
+def connected(exp):
+    """is the expected residue graph connected (domain filter for the stages after the sequence input)"""
+    n = exp["n"]
+    if n == 0:
+        return False
+    adj = {i: set() for i in range(1, n + 1)}
+    for e in exp["edges"]:
+        adj[e["a"]].add(e["b"])
+        adj[e["b"]].add(e["a"])
+    seen, todo = {1}, [1]
+    while todo:
+        for j in adj[todo.pop()]:
+            if j not in seen:
+                seen.add(j)
+                todo.append(j)
+    return len(seen) == n
+
+
 def same_graph(obs, exp):
     return diff(obs, exp) is None
 
@@ -409,10 +427,11 @@ def run_gen_params(wd, stem, ff, seq=None, seq_file=None, dsdna=False):
     gi.MapToMolecule = Capture
     try:
         gi.gen_params(name="test", outpath=out, inpath=[Path(ff)], lib=None, seq=seq, seq_file=seq_file, dsdna=dsdna)
-    except Exception as exc:
+    except (Exception, SystemExit) as exc:
+        if "g" in captured:
+            # the residue graph was built; a later stage (mapping, links, writing) failed
+            return {"g": captured["g"], "itp": None, "after": _exc(exc)["exc"]}
         return _exc(exc)
-    except SystemExit as exc:
-        return {"exc": "SystemExit %s" % exc}
     finally:
         gi.MapToMolecule = orig
     if "g" not in captured:
